@@ -42,7 +42,7 @@ CHECKS = {
                       "plus ANSI sequences. Exploration over sampled diffs; the reader's (state, line kind) transitions exercised are listed.",
         "level_note": "Effect comparison is jd against jd (the diff vs the re-read diff); what a hunk should do is C03/C08's business. "
                       "Sequences are at most 3 synthetic hunks; context of at most two lines.",
-        "rule": "leg diffs: d = a.Diff(b, opts) over C01's generator with payload strings and nasty keys, targets a and a perturbed document; "
+        "rule": "leg text: a real rendering damaged line by line (dropped, repeated, exchanged, re-marked lines, lines from a pool of headers / metadata / markers, trailing blanks, CR, moved hunks, truncation, re-spelled values), or arbitrary bytes from the native fuzzer in the thorough tier; every text the reader accepts must give a diff that survives Render/ReadDiffString unchanged and acts like its re-read twin; leg diffs: d = a.Diff(b, opts) over C01's generator with payload strings and nasty keys, targets a and a perturbed document; "
                 "leg synthetic: 1-3 hunks built from DiffElement fields, strict hunks first then merge hunks, a target constructed to fit the first hunk "
                 "plus a random one; leg cli: both binaries print the diff of payload-heavy documents (%, quotes, control characters, 70 KB strings), the text must equal the library rendering and jd -p must turn a into b. Non-trivial: >= 2 hunks, or a non-boundary context line, or a metadata line, or a multi-value set hunk, or a payload "
                 "needing JSON escapes; distinct by the full case.",
@@ -51,6 +51,8 @@ CHECKS = {
             rapid("diffs", "TestC02Diffs", {"checks": 20000, "shards": 4}, {"checks": 200000, "shards": 16, "timeout": 6000}),
             rapid("synthetic", "TestC02Synthetic", {"checks": 30000, "shards": 4}, {"checks": 300000, "shards": 16, "timeout": 6000}),
             rapid("cli", "TestC02CLI", {"checks": 120, "shards": 4, "shrinktime": "10s"}, {"checks": 2000, "shards": 16, "timeout": 6000}),
+            rapid("text", "TestC02Text", {"checks": 20000, "shards": 4}, {"checks": 200000, "shards": 16, "timeout": 6000}),
+            gofuzz("fuzz-text", "FuzzC02Text", 120),
         ],
     },
     "C03": {
